@@ -54,6 +54,14 @@ class C12(PropBase):
                     if tv is not None:
                         vals.append((tv, w))
             items.append({"variants": variants, "vals": vals})
+        if rng.random() < 0.35:
+            # pass-through positions (Any, bare containers): what the text decoder returns reaches the
+            # caller as it is - including tuples (Python-literal text) that hold lists and dicts
+            t = rng.choice([{"k": "any"}, {"k": "bare", "n": "tuple"}, {"k": "bare", "n": "list"}, {"k": "raw", "src": "tuple[typing.Any, ...]"},
+                            {"k": "raw", "src": "dict[str, typing.Any]"}, {"k": "raw", "src": "list[typing.Any]"}])
+            lits = ["(1, [2, 3])", "{'a': (1, {'b': 2})}", "[1, (2, [3])]", "([], {})", "{'k': ([1], [2])}", "[[1, 2], [3]]", '{"a": [1, {"b": []}]}']
+            vals = [(x, x) for x in rng.sample(lits, 3)]
+            items.append({"variants": [t], "vals": vals, "literal": True})
         steps: list[dict] = []
         n = rng.randint(2, 25 if tier == "quick" else 60)
         builds = []
@@ -71,6 +79,12 @@ class C12(PropBase):
             it = rng.choice(items)
             t = rng.choice(it["variants"])
             v, w = rng.choice(it["vals"])
+            if it.get("literal"):
+                # unmarshal the literal text in a text carrier; results are mutated by later faults
+                steps.append({"id": len(steps), "t": t, "mod": rng.choice(mods), "op": "unmarshal", "x": hist.carry(v, rng.choice(["str", "str", "bytes", "mv"]))})
+                if "mutate_result" in sw and rng.random() < 0.7:
+                    steps.append({"id": len(steps), "op": "mutate_result", "ref": len(steps) - 1})
+                continue
             step = {"id": len(steps), "t": t, "mod": rng.choice(mods)}
             if "stack" in sw and rng.random() < 0.3:
                 step["depth"] = rng.randint(1, 40)
